@@ -10,10 +10,10 @@ run_one() {
   mkdir $d/demo; cp /verif/seeded/$id/demo.py $d/demo/demo.py
   (cd $d/demo; PYTHONPATH=$d/repo /venv/bin/python demo.py > /dev/null 2>&1); rc=$?
   for p in $checks; do
-    n=$(VERIF_REPO=$d/repo /verif/check $p 2>/dev/null | grep -c VIOLATION)
+    n=$(VERIF_GEN_SUFFIX=_$id VERIF_REPO=$d/repo /verif/check $p 2>/dev/null | grep -c VIOLATION)
     echo "$id demo_rc_with_change=$rc check=$p violation_lines=$n"
   done
-  git -C /repo worktree remove --force $d/repo; rm -rf $d
+  git -C /repo worktree remove --force $d/repo; rm -rf $d /verif/coq/gen/*_$id /verif/coq/gen/*_${id}_props
 }
 export -f run_one
 grep -E "$pat" /verif/seeded/INDEX.tsv | while IFS=$'\t' read id prop k checks; do echo "$id $checks"; done | xargs -P 6 -L 1 bash -c 'run_one $0 $@'
